@@ -83,7 +83,9 @@ Count(o) == Cardinality(o.sg)
 Weight(g, o) == WSum(g.w, o.sg)
 Accepts(g, o) ==
   CASE g.fl = "simple"   -> g.inst /\ Count(o) >= g.th
-    [] g.fl = "weighted" -> g.inst /\ Weight(g, o) <= g.maxw /\ Weight(g, o) >= g.th
+    \* the mathematical sum decides: a configuration whose weights cannot be summed in u32 must be refused when
+    \* it is made (C14_config territory), never by refusing signers whose weights do reach the threshold
+    [] g.fl = "weighted" -> g.inst /\ Weight(g, o) >= g.th
     [] OTHER             -> FALSE
 
 ConfigOps == {"install", "uninstall", "set_threshold", "set_weight", "set_limit"}
